@@ -1144,7 +1144,7 @@ var c11Witnesses = []Witness{
 	{Name: "slice-fetcher-lower-bound-dropped", Rule: "R-FETCHGATE", Edits: []Edit{
 		{File: "variable.go", Old: "	if minKey <= maxKey && 0 <= minKey && maxKey < 256 {", New: "	if minKey <= maxKey && maxKey < 256 {"}}},
 	{Name: "slice-fetcher-get-off-by-one", Rule: "R-FETCHGATE", Edits: []Edit{
-		{File: "variable.go", Old: "func (s SliceVarFetcher) Get(key VariableKey, _ string) (Value, error) {\n	if int(key) >= len(s) {", New: "func (s SliceVarFetcher) Get(key VariableKey, _ string) (Value, error) {\n	if int(key) > len(s) {"}}},
+		{File: "variable.go", Old: "func (s SliceVarFetcher) Get(key VariableKey, _ string) (Value, error) {\n	if key < 0 || int(key) >= len(s) {", New: "func (s SliceVarFetcher) Get(key VariableKey, _ string) (Value, error) {\n	if key < 0 || int(key) > len(s) {"}}},
 	{Name: "varkeyrange-max-from-last", Rule: "R-FETCHGATE", Edits: []Edit{
 		{File: "variable.go", Old: "		if key > max {\n			max = key\n		}", New: "		if key > max || key > min {\n			max = key\n		}"}}},
 	{Name: "uint16-case-deleted", Rule: "R-UNIFY", Edits: []Edit{
